@@ -854,7 +854,7 @@ pub fn oracle(_c: &Corpus, seed: u64, tier: &str) -> Vec<Report> {
             texts.insert(c.to_string());
         }
     }
-    for t in ["ARRAY<ARRAY<ARRAY<INT> > >", "ARRAY<ARRAY<ARRAY<ARRAY<INT> > > >", "STRUCT<a STRUCT<b ARRAY<INT> >, c INT>", "ENUM('it''s')", "DateTime64(3, 'a''b')", "DateTime64(3, \"a'b\")", "foo('a''b')", "ARRAY<ARRAY<INT> >[]", "STRUCT<a ARRAY<INT> >[]", "ARRAY<ARRAY<ARRAY<INT> > >[]", "ARRAY<INT>[]", "ARRAY<INT[]>", "STRUCT<a INT>[]", "Tuple(DOUBLE PRECISION)", "STRUCT<INT UNSIGNED>"] {
+    for t in ["ARRAY<ARRAY<ARRAY<INT> > >", "ARRAY<ARRAY<ARRAY<ARRAY<INT> > > >", "STRUCT<a STRUCT<b ARRAY<INT> >, c INT>", "ENUM('it''s')", "ENUM('a\\b', 'c')", "SET('a\\b')", "ENUM('x y', '')", "SET('é', '中')", "ENUM('tab\there')", "DateTime64(3, 'a\\b')", "DateTime64(3, 'a''b')", "DateTime64(3, \"a'b\")", "foo('a''b')", "ARRAY<ARRAY<INT> >[]", "STRUCT<a ARRAY<INT> >[]", "ARRAY<ARRAY<ARRAY<INT> > >[]", "ARRAY<INT>[]", "ARRAY<INT[]>", "STRUCT<a INT>[]", "Tuple(DOUBLE PRECISION)", "STRUCT<INT UNSIGNED>"] {
         texts.insert(t.to_string());
     }
     for t in nest_texts(if thorough { 3 } else { 2 }, &BASES) {
